@@ -19,16 +19,22 @@ Inductive event :=
 | EReportFailure (id tip : Z)
 | ERecordSat (scanned est : Z) (dets : list (Z * answer))
 | ERebuild (id tip : Z) (grid_ok crypto_ok external : bool) (sched anchor txid : Z)
+| EStatuses (scanned est : Z)
 | ECancel | ESupersede | ERecompute.
 
-Inductive output := OUnit | OBool (b : bool) | OStep (st : step) (persisted : bool) | ORebuild (r : rebuild_res) | OPanic.
+Inductive output :=
+| OUnit | OBool (b : bool) | OStep (st : step) (persisted : bool) | ORebuild (r : rebuild_res)
+| OStatuses (l : list txstatus) (expired : list Z)
+| OMemDisagree   (* the in-memory backend did not agree with the scripted store on an advance call *)
+| OPanic.
 (** persistence stream: the verdicts of the load-back ([latest_migration] / [get_migration] equal
-    to what was written, at most one live migration), and a plain [SELECT] dump of what
+    to what was written, at most one live migration, the in-memory backend of
+    zcash_pool_migration_memory agreeing with the SQLite store), and a plain [SELECT] dump of what
     [replace_migration] wrote: the parent row's status / threshold / interval columns and the rows
     of the transactions and dependency tables, in insertion order *)
 Inductive pers :=
 | PNone
-| PRows (latest_ok get_ok one_live_ok : bool) (st : status) (thr ivl : Z)
+| PRows (latest_ok get_ok one_live_ok mem_ok : bool) (st : status) (thr ivl : Z)
         (rows : list txrow) (deps : list deprow).
 
 Inductive case := Case (pre : mstate) (ev : event) (post : mstate) (out : output) (p : pers).
@@ -62,11 +68,24 @@ Definition step_eqb (a b : step) : bool :=
   | SReplan, SReplan | SReevaluate, SReevaluate | SWaiting, SWaiting | SComplete, SComplete => true
   | _, _ => false
   end.
+Definition action_eqb (a b : action) : bool := match a, b with AProve, AProve | ABroadcast, ABroadcast => true | _, _ => false end.
+Definition blocker_eqb (a b : blocker) : bool :=
+  match a, b with
+  | BDependencies, BDependencies | BSchedule, BSchedule | BAnchorBoundary, BAnchorBoundary | BSignature, BSignature
+  | BExpiryImminent, BExpiryImminent | BExpired, BExpired | BAwaitingReevaluation, BAwaitingReevaluation
+  | BUnsatisfiable, BUnsatisfiable => true
+  | _, _ => false
+  end.
+Definition txstatus_eqb (a b : txstatus) : bool :=
+  (ts_id a =? ts_id b) && Bool.eqb (ts_ready a) (ts_ready b) && option_eqb action_eqb (ts_action a) (ts_action b)
+  && option_eqb blocker_eqb (ts_blocked a) (ts_blocked b) && option_eqb ukind_eqb (ts_ukind a) (ts_ukind b)
+  && oz_eqb (ts_mined a) (ts_mined b).
 Definition output_eqb (a b : output) : bool :=
   match a, b with
   | OUnit, OUnit | OPanic, OPanic => true
   | OBool x, OBool y => Bool.eqb x y
   | OStep s p, OStep s' p' => step_eqb s s' && Bool.eqb p p'
+  | OStatuses l e, OStatuses l' e' => list_eqb txstatus_eqb l l' && list_eqb Z.eqb e e'
   | ORebuild RbOk, ORebuild RbOk | ORebuild RbLate, ORebuild RbLate => true
   | ORebuild (RbErr e), ORebuild (RbErr e') =>
     match e, e' with
@@ -96,7 +115,7 @@ Definition deprow_eqb (a b : deprow) : bool :=
 Definition rows_match (post : mstate) (p : pers) : bool :=
   match p with
   | PNone => true
-  | PRows _ _ _ st thr ivl rows deps =>
+  | PRows _ _ _ _ st thr ivl rows deps =>
     status_eqb st (m_status post) && (thr =? m_thr post) && (ivl =? m_ivl post)
     && list_eqb txrow_eqb rows (fst (save_txs (m_txs post)))
     && list_eqb deprow_eqb deps (snd (save_txs (m_txs post)))
@@ -135,6 +154,8 @@ Definition model_event (s : mstate) (ev : event) : option (mstate * output) :=
     let delay := sched - chain_base s target in
     if crypto_ok && ((delay <? 0) || (U32MAX <? sched)) then None
     else let '(s', r) := rebuild s id target grid_ok crypto_ok external delay anchor txid in Some (s', ORebuild r)
+  | EStatuses sc est =>
+    Some (s, OStatuses (transaction_statuses s (mk_targets sc est)) (expired_transactions s (mk_targets sc est)))
   | ECancel => Some (mark_cancelled s, OUnit)
   | ESupersede => Some (mark_superseded s, OUnit)
   | ERecompute => Some (recompute_status s, OUnit)
@@ -163,6 +184,25 @@ Definition rebuild_exact_b (id target : Z) (pre post : list mtx) : bool :=
         && (match t_state b with Signed | AwaitingSig => true | _ => false end)
         && (target <=? t_sched b) && negb (sp_expired b target))) pre post.
 
+(** the status view, row by row: it never reports an unmined row silently (the row is ready with
+    an action, or names what it is blocked on, or is in flight), a mined row carries neither, and a
+    row reported ready to broadcast is one the drive API may safely offer *)
+Definition status_row_ok (s : mstate) (tg : targets) (t : mtx) (x : txstatus) : bool :=
+  (ts_id x =? t_id t)
+  && Bool.eqb (ts_ready x) (is_some (ts_action x))
+  && (if ts_ready x then negb (is_some (ts_blocked x)) else true)
+  && (if is_mined t then negb (ts_ready x) && negb (is_some (ts_blocked x))
+      else ts_ready x || is_some (ts_blocked x) || txstate_eqb (t_state t) Bcast)
+  && (match ts_action x with Some ABroadcast => offer_safe_b s tg (t_id t) | _ => true end).
+Fixpoint forall2b' {A B} (f : A -> B -> bool) (x : list A) (y : list B) : bool :=
+  match x, y with
+  | [], [] => true
+  | a :: x', b :: y' => f a b && forall2b' f x' y'
+  | _, _ => false
+  end.
+Definition statuses_ok_b (s : mstate) (tg : targets) (l : list txstatus) : bool :=
+  forall2b' (status_row_ok s tg) (m_txs s) l.
+
 Definition prop_event (pre : mstate) (ev : event) (post : mstate) (out : output) : bool :=
   (* lifecycle: forward only, a rollback un-mines exactly the rows mined above its height *)
   (match ev with
@@ -179,13 +219,15 @@ Definition prop_event (pre : mstate) (ev : event) (post : mstate) (out : output)
         (match st with SBroadcast id => offer_safe_b post tg id | _ => true end)
         && no_strand_b post tg (is_notyet dflt || existsb (fun p => is_notyet (snd p)) answers) st
       | EAdvance _ _ _ _ _ _, _ => false
+      | EStatuses sc est, OStatuses l _ => statuses_ok_b pre (mk_targets sc est) l
+      | EStatuses _ _, _ => false
       | _, _ => true
       end).
 
 Definition prop_case (c : case) : bool :=
   let '(Case pre ev post out p) := c in
   prop_event pre ev post out
-  && match p with PNone => true | PRows a b c _ _ _ _ _ => a && b && c end.
+  && match p with PNone => true | PRows a b c m _ _ _ _ _ => a && b && c && m end.
 
 (** Classes of the two recordings that used to demote a row (1: a broadcast recorded on a row
     that is already mined; 2: a proof stored on a row that is already in flight or mined). Both
@@ -203,7 +245,7 @@ Definition known_class (c : case) : N :=
 (** path tags: event kind, and for Advance the step kind / whether anything was persisted *)
 Definition tag_case (c : case) : N :=
   let '(Case pre ev post out p) := c in
-  (match p with PNone => 0 | PRows _ _ _ _ _ _ _ _ => 100 end +
+  (match p with PNone => 0 | PRows _ _ _ _ _ _ _ _ _ => 100 end +
   match ev, out with
   | ENoop, _ => 1
   | EStoreProof id, _ => match state_of pre id with Some Signed => 2 | None => 3 | _ => 4 end
@@ -226,6 +268,7 @@ Definition tag_case (c : case) : N :=
   | ERebuild _ _ _ _ _ _ _ _, ORebuild (RbErr e) =>
     match e with RMismatch => 67 | RUnknown => 68 | RNotTransfer => 69 | RUnsatisfiable => 70 | RNotExpired => 71 end
   | ERebuild _ _ _ _ _ _ _ _, _ => 72
+  | EStatuses _ _, _ => 73
   | ECancel, _ => 62
   | ESupersede, _ => 63
   | ERecompute, _ => 64
